@@ -362,8 +362,11 @@ def py_layers(R):
                 # a bare bottom message means the status did not arrive as a status (it was parked as a Python exception instead).
                 if not m or (m.group(2) != stv and hook != "memarr") or ("status %s for" % kind[2:]) not in m.group(3) or \
                         (hook == "memarr" and (": status %s for" % kind[2:]) not in m.group(3)):
+                    bare = bool(m) and hook == "memarr" and (": status %s for" % kind[2:]) not in m.group(3)
                     return ("Python binding: hook %s, bottom implementation returns status %s: through %d pass-through layer(s) the caller gets '%s' "
-                            "instead of status %s with the bottom implementation's message" % (hook, stv, n, got, stv),
+                            "%s" % (hook, stv, n, got, "-- libaddrxlat's C code (the MEMARR look-up that fetched the page) did not receive status %s: "
+                                    "its own message context is missing, the layer handed it a stored Python exception (status -1) instead" % stv
+                                    if bare else "instead of status %s with the bottom implementation's message" % stv),
                             dict(stream="py-layers", hook=hook, key=key, status=int(stv), layers=n, outcomes={str(k): x for k, x in v.items()},
                                  replay="PYTHONPATH=<dir with _addrxlat.so built from python/addrxlat.c> python3 harness/py_layers.py")), nobs, nontriv
                 if n < first:
